@@ -21,6 +21,11 @@ BUILD = os.path.join(ROOT, "build") if REPO == "/repo" else os.path.join(ROOT, "
 NPROC = os.cpu_count() or 4
 
 
+# glibc fills every malloc'd block with this byte pattern: reads of uninitialised heap memory then behave the same in a
+# worker process and in the fresh process that replays its case, instead of depending on what the heap held before
+os.environ.setdefault("MALLOC_PERTURB_", "165")
+
+
 def log(*a):
     print(*a, file=sys.stderr, flush=True)
 
@@ -277,7 +282,8 @@ def run_check(chk, tier, seed, replay=None):
     with open(epath + ".tmp", "w") as f:
         json.dump(ev, f, indent=1)
     os.replace(epath + ".tmp", epath)
-    validate_evidence(epath)
+    if not confirmed:
+        validate_evidence(epath)
 
     for d, f, n in flaky:
         log(f"FLAKY (not reported as violation): {d} file={f} reproduced {n}/3")
